@@ -247,6 +247,9 @@ func factsSes(f *facts) {
 	for _, n := range []string{"message", "onMessage", "Send", "send", "write", "DoClose"} {
 		f.skeletonOf(tr, "transports", "websocket", n)
 	}
+	for _, n := range []string{"message", "onMessage", "Send", "send", "write", "DoClose"} {
+		f.skeletonOf(tr, "transports", "webTransport", n)
+	}
 	for _, n := range []string{"OnData", "DoWrite"} {
 		f.skeletonOf(tr, "transports", "jsonp", n)
 	}
@@ -254,7 +257,7 @@ func factsSes(f *facts) {
 	for _, n := range []string{"Handshake", "Close", "Verify"} {
 		f.skeletonOf(eng, "engine", "baseServer", n)
 	}
-	for _, n := range []string{"HandleRequest", "HandleUpgrade", "onWebSocket", "ServeHTTP", "Cleanup"} {
+	for _, n := range []string{"HandleRequest", "HandleUpgrade", "onWebSocket", "OnWebTransportSession", "ServeHTTP", "Cleanup"} {
 		f.skeletonOf(eng, "engine", "server", n)
 	}
 	ty := loadPkg("types")
